@@ -733,33 +733,3 @@ pub fn smoke() {
     assert!(m.torrents.len() == 0);
     std::mem::forget(m);
 }
-
-pub fn probe_announce_base<const N: usize>() {
-    let h: [u8; 20] = kani::any();
-    let ents = any_wents::<N>();
-    let mut m = mk_map(h, &ents);
-    aquatic_common::verif_shims::set_mock_clock(Some(kani::any()));
-    let config = mk_config(2, 4, 5, 60, AccessListMode::Off);
-    let mut rng = any_rng();
-    let mut out: Vec<(OutMessageMeta, OutMessage)> = Vec::with_capacity(2);
-    let req = bare_request(h, kani::any());
-    let meta = InMessageMeta { out_message_consumer_id: ConsumerId(kani::any()), connection_id: conn(kani::any()), ip_version: IpVersion::V4, pending_scrape_id: None };
-    m.handle_announce_request(&config, &mut rng, &mut out, aquatic_common::ServerStartInstant::new(), meta, req);
-    assert!(out.len() <= 1);
-    std::mem::forget(out);
-    std::mem::forget(m);
-    std::mem::forget(config);
-}
-pub fn probe_insert_base<const N: usize>() {
-    let ents = any_wents::<N>();
-    let mut t = mk_torrent(&ents);
-    aquatic_common::verif_shims::set_mock_clock(Some(kani::any()));
-    let config = mk_config(2, 4, 5, 60, AccessListMode::Off);
-    let req = bare_request(kani::any(), kani::any());
-    let meta = InMessageMeta { out_message_consumer_id: ConsumerId(kani::any()), connection_id: conn(kani::any()), ip_version: IpVersion::V4, pending_scrape_id: None };
-    let st = t.insert_or_update_peer(&config, aquatic_common::ServerStartInstant::new(), meta, &req);
-    assert!(t.peers.len() <= N + 1);
-    let _ = st;
-    std::mem::forget(t);
-    std::mem::forget(config);
-}
